@@ -214,17 +214,21 @@ impl Signature {
         let mut s = null();
         unsafe { ECDSA_SIG_get0(*sig.as_const(), &raw mut r, &raw mut s) };
 
-        if unsafe { BN_num_bytes(r) } != 48 || unsafe { BN_num_bytes(s) } != 48 {
+        // r and s are left-padded with zeros to 48 bytes each
+        let r_len = unsafe { BN_num_bytes(r) } as usize;
+        let s_len = unsafe { BN_num_bytes(s) } as usize;
+        if r_len > 48 || s_len > 48 {
             return Err(PasetoError::CryptoError);
         }
 
         out.reserve(48 + 48);
         let len = out.len();
-        let ptr = out.spare_capacity_mut().as_mut_ptr().cast();
-        if unsafe { BN_bn2bin(r, ptr) } != 48 {
+        let ptr: *mut u8 = out.spare_capacity_mut().as_mut_ptr().cast();
+        unsafe { ptr.write_bytes(0, 48 + 48) };
+        if unsafe { BN_bn2bin(r, ptr.add(48 - r_len)) } != r_len {
             return Err(PasetoError::CryptoError);
         }
-        if unsafe { BN_bn2bin(s, ptr.add(48)) } != 48 {
+        if unsafe { BN_bn2bin(s, ptr.add(96 - s_len)) } != s_len {
             return Err(PasetoError::CryptoError);
         }
         unsafe { out.set_len(len + 48 + 48) };
